@@ -192,3 +192,24 @@ def _c04_structure_around(sub: dict, params: dict) -> bool:
     before, after = inner[: step["insert"]], inner[step["insert"] :]
     pure_wrappers = all(t[0] == "open" for t in before) and all(t[0] == "close" for t in after)
     return not pure_wrappers
+
+
+@predicate("c04_remove_node_mark_same_type_later")
+def _c04_same_rank(sub: dict, params: dict) -> bool:
+    """RemoveNodeMarkStep of a mark that is followed, in the node's set, by another mark of the same type
+    (only possible for types that do not exclude themselves): adding it back appends it after its siblings."""
+    if sub.get("mode") != "c04" or sub.get("step", {}).get("k") != "removeNodeMark":
+        return False
+    from .gen import schemas
+    from .ref import marks as rm
+    from .ref import resolve as RR
+
+    _lib, rs = schemas.get(sub["schema"])
+    step = sub["step"]
+    node = RR.node_at(RR.N(sub["doc_before"], rs), step["pos"])
+    if node is None:
+        return False
+    idx = [i for i, m in enumerate(node["m"]) if rm.mark_eq(m, step["mark"])]
+    if not idx:
+        return False
+    return any(m[0] == step["mark"][0] for m in node["m"][idx[0] + 1 :])
